@@ -13,20 +13,20 @@ open BestPath World
 /-! ### what the policy interpreter reads and writes -/
 
 /-- the attributes the modelled policies read or write, plus what the view shows -/
-def pview (c : Cand) : Nat × Option Nat × Option Nat × List Nat × Bool × List Seg :=
-  (c.marker, c.med, c.localPref, c.comms, c.stale, c.segs)
+def pview (c : Cand) : Nat × Option Nat × Option Nat × List Nat × Bool × List Seg × Nat :=
+  (c.marker, c.med, c.localPref, c.comms, c.stale, c.segs, c.pfx)
 
 theorem matches_congr (s : Stmt) (i : Nat) (a b : Cand) (h : pview a = pview b) :
     s.matches i a = s.matches i b := by
   simp only [pview, Prod.mk.injEq] at h
-  unfold Stmt.matches asPathLen; rw [h.2.2.2.1, h.2.2.2.2.2]
+  unfold Stmt.matches asPathLen; rw [h.2.2.2.1, h.2.2.2.2.2.1, h.2.2.2.2.2.2]
 
 theorem modify_pview (s : Stmt) (a b : Cand) (h : pview a = pview b) :
     pview (s.modify a) = pview (s.modify b) := by
   unfold Stmt.modify
   simp only [pview, Prod.mk.injEq] at h ⊢
-  obtain ⟨h1, h2, h3, h4, h5, h6⟩ := h
-  cases s.addComm <;> cases s.setMed <;> cases s.setLp <;> simp [h1, h2, h3, h4, h5, h6]
+  obtain ⟨h1, h2, h3, h4, h5, h6, h7⟩ := h
+  cases s.addComm <;> cases s.setMed <;> cases s.setLp <;> simp [h1, h2, h3, h4, h5, h6, h7]
 
 /-- the outcome, as far as policies and the view can see it, depends on `pview` only -/
 theorem evalStmts_pview (d : Bool) (i : Nat) (ss : List Stmt) :
@@ -53,8 +53,8 @@ theorem prePolicy_pview (g : Global) (t : PeerCfg) (a b : Cand) (h : pview a = p
     pview (prePolicy g t a) = pview (prePolicy g t b) := by
   unfold prePolicy
   simp only [pview, Prod.mk.injEq] at h ⊢
-  obtain ⟨h1, h2, h3, h4, h5, h6⟩ := h
-  split <;> simp [h1, h2, h3, h4, h5, h6]
+  obtain ⟨h1, h2, h3, h4, h5, h6, h7⟩ := h
+  split <;> simp [h1, h2, h3, h4, h5, h6, h7]
 
 /-! ### the specification with policy -/
 
@@ -86,7 +86,7 @@ def deltaForP (g : Global) (e : Pol) (t : PeerCfg) (oldL newL : List Cand) : Opt
 theorem heldOf_pview (g : Global) (t : PeerCfg) (a b : Cand) (h : pview a = pview b) :
     heldOf g t a = heldOf g t b := by
   simp only [pview, Prod.mk.injEq] at h
-  obtain ⟨h1, h2, h3, h4, _, _⟩ := h
+  obtain ⟨h1, h2, h3, h4, _, _, _⟩ := h
   unfold heldOf; simp [h1, h2, h3, h4]
 
 theorem wantRP_congr (g : Global) (e : Pol) (t : PeerCfg) (a b : Cand)
@@ -255,18 +255,20 @@ theorem sfilterP_first (g : Global) (e : Pol) (t : PeerCfg) (b : Cand) (hb : b.n
     rw [sFilterpathP_none g e t _ _ hc]
     simp [heldApplyP, wantRP_not_exportable, hx]
 
-theorem pathEqual_pview (a b : Cand) (h : pathEqual a b = true) : pview a = pview b := by
+theorem pathEqual_pview (a b : Cand) (h : pathEqual a b = true) (hp : a.pfx = b.pfx) :
+    pview a = pview b := by
   unfold pathEqual at h
   simp at h
   simp only [pview, Prod.mk.injEq]
-  exact ⟨h.1.1.1.1.2, h.1.1.1.1.1.2, h.1.1.1.1.1.1.1.1.2, h.1.2, h.2, h.1.1.1.1.1.1.1.2⟩
+  exact ⟨h.1.1.1.1.2, h.1.1.1.1.1.2, h.1.1.1.1.1.1.1.1.2, h.1.2, h.2, h.1.1.1.1.1.1.1.2, hp⟩
 
 /-- **delta_correct with export policy** (the policy does not change during the step) -/
 theorem delta_correct_P (g : Global) (e : Pol) (t : PeerCfg) (hrs : t.isRSClient = false)
     (oldL newL : List Cand)
     (wfO : ∀ o, oldL.head? = some o → FromPeerWF g t o)
     (wfEq : ∀ b o, newL.head? = some b → oldL.head? = some o →
-      b.src.equal o.src = true → b.src = o.src) :
+      b.src.equal o.src = true → b.src = o.src)
+    (wfP : ∀ b o, newL.head? = some b → oldL.head? = some o → b.pfx = o.pfx) :
     heldApplyP g t (wantOfP g e t oldL) (deltaForP g e t oldL newL) = wantOfP g e t newL := by
   unfold wantOfP deltaForP getChanges
   cases hn : newL.head? with
@@ -296,7 +298,7 @@ theorem delta_correct_P (g : Global) (e : Pol) (t : PeerCfg) (hrs : t.isRSClient
         have hsrc := wfEq b o hn ho (pathEqual_src b o heq)
         obtain ⟨f1, _, f3, _⟩ := pathEqual_fields b o heq
         have hex := exportable_congr g t b o hsrc f3 f1
-        have hv := pathEqual_pview b o heq
+        have hv := pathEqual_pview b o heq (wfP b o hn ho)
         simp only [if_true]
         cases hbi : b.nhInvalid <;> cases hoi : o.nhInvalid
         · -- both reachable, nothing sent
@@ -716,7 +718,8 @@ def DEv.list : DEv → List (List Cand)
 def ListsWF (g : Global) (t : PeerCfg) (ls : List (List Cand)) : Prop :=
   (∀ l ∈ ls, ∀ o, l.head? = some o → FromPeerWF g t o) ∧
   (∀ l ∈ ls, ∀ l' ∈ ls, ∀ b o, l.head? = some b → l'.head? = some o →
-    b.src.equal o.src = true → b.src = o.src)
+    b.src.equal o.src = true → b.src = o.src) ∧
+  (∀ l ∈ ls, ∀ l' ∈ ls, ∀ b o, l.head? = some b → l'.head? = some o → b.pfx = o.pfx)
 
 theorem weak_fold (g : Global) (t : PeerCfg) (hrs : t.isRSClient = false) (U : List (List Cand))
     (wf : ListsWF g t U) :
@@ -736,7 +739,7 @@ theorem weak_fold (g : Global) (t : PeerCfg) (hrs : t.isRSClient = false) (U : L
       have hnew : newL ∈ U := hU _ List.mem_cons_self newL (by simp [DEv.list])
       apply ih _ hnew hrest
       exact weak_inv_step g e t hrs s.1 newL s.2 (fun o ho => wf.1 _ hs o ho)
-        (fun b o hb ho => wf.2 _ hnew _ hs b o hb ho) inv
+        (fun b o hb ho => wf.2.1 _ hnew _ hs b o hb ho) inv
     | soft e =>
       refine ih (dstep g t s (.soft e)) (by simp only [dstep]; exact hs) hrest ?_
       simp only [dstep]
@@ -760,6 +763,6 @@ theorem want_fold (g : Global) (e : Pol) (t : PeerCfg) (hrs : t.isRSClient = fal
     simp only [dstep]
     rw [h]
     exact delta_correct_P g e t hrs s.1 l (fun o ho => wf.1 _ hs o ho)
-      (fun b o hb ho => wf.2 _ hl _ hs b o hb ho)
+      (fun b o hb ho => wf.2.1 _ hl _ hs b o hb ho) (fun b o hb ho => wf.2.2 _ hl _ hs b o hb ho)
 
 end SoftReset
